@@ -166,6 +166,44 @@ class Snap(object):
             return ('in', self.d['obj'], off)
         return ('uninit',)
 
+    def byte_at(self, lin):
+        """Byte at a (possibly symbolic) offset given as Lin; None when no cell is keyed exactly there."""
+        from ..state import split_off
+        from ..terms import mk_byte
+        sk, c = split_off(lin)
+        if not sk:
+            return self.byte(c)
+        for back in range(8):
+            cell = self.cells.get((sk, c - back))
+            if cell is not None and back < cell[0]:
+                w, t = cell
+                return self.st.canon(t) if w == 1 else self.st.canon(mk_byte(t, back))
+        return None
+
+    def initialised_upto(self, length):
+        """Is every byte below `length` (term) determined by a store or the zero fill?  -> (ok, why)"""
+        st = self.st
+        d = self.d
+        if any(t == ('uninit',) or (t[0] == 'cat' and ('uninit',) in t[1]) for (k, w, t) in d['cells']):
+            return False, 'an uninitialised value was stored into the buffer'
+        for (k, w, t) in d['cells']:
+            if t[0] == 'selw' and t[4] == ('uninit',):
+                return False, 'a getter destination inside the buffer was not initialised before the call'
+        if d['default'] == 'zero':
+            zn = d['zeroed_n']
+            if zn is None or zn == d['size'] or st.prove_le(length, zn):
+                return True, ''
+            return False, 'zero fill covers %s bytes, frame length is %s' % (short(zn), short(length))
+        if d['default'] in ('sym', 'unknown'):
+            return True, ''
+        c = st.dom(length).const()
+        if c is None:
+            return False, 'buffer is not zero-filled and the frame length %s is not constant' % short(length)
+        for i in range(int(c)):
+            if self.byte(i) == ('uninit',):
+                return False, 'byte %d of the frame was never written' % i
+        return True, ''
+
     def bytes(self, off, n):
         return [self.byte(off + i) for i in range(n)]
 
